@@ -367,7 +367,8 @@ theorem alwaysVerdict_outcomes (obs : Obs ℝ) (d : Int)
     alwaysVerdict obs d = .error .alwaysBelow ∨ alwaysVerdict obs d = .error .alwaysAbove := by
   unfold alwaysVerdict
   obtain ⟨n, hn⟩ := noon_total obs d TZ.UTC hd hlon
-  rw [hn]
+  obtain ⟨a, ha⟩ := elevationAdjustment_ok obs.elev
+  rw [hn, ha]
   simp only [bind, Except.bind]
   split_ifs
   · exact Or.inl rfl
